@@ -82,6 +82,15 @@ Theorem c17_consumer_ends segs fin dt rds :
   snd (reader_rd segs fin dt rds) <> None.
 Proof. exact (reader_rd_ends segs fin dt rds). Qed.
 
+(* NewCommentReader with other marker tables (the API takes them as arguments): the split function
+   and the reader are modelled generically over the tables and run against the implementation
+   (SRS-config # comments, SQL/XML style markers, multi-byte regions); the theorems of this file
+   are about the instance for the tables of NewJsonPlusReader, and that instance of the generic
+   model is the model the theorems are about. *)
+Theorem c17_generic_tables segs fin dt rds :
+  reader_rd_t json_tables segs fin dt rds = reader_rd segs fin dt rds.
+Proof. exact (generic_is_json segs fin dt rds). Qed.
+
 (* [core] Streams that end in a read error (fin <> 0), every segmentation: the reader ends with that
    very error (the transport's), and the bytes delivered before it are a prefix of what is
    delivered for the same bytes followed by EOF -- never anything else.  The length of the
@@ -160,6 +169,7 @@ Print Assumptions c17_limit.
 Print Assumptions c17_consumer.
 Print Assumptions c17_consumer_any.
 Print Assumptions c17_consumer_ends.
+Print Assumptions c17_generic_tables.
 Print Assumptions c17_read_error.
 Print Assumptions c17_strip.
 Print Assumptions c17_strip_spec.
